@@ -292,7 +292,9 @@ fn chrono_dt(ms: i64) -> DateTime<FixedOffset> { DateTime::from_timestamp_millis
 pub fn built_constraints() -> Vec<Constraint<'static>> {
     let quals = [SelectionQualifier::Normal, SelectionQualifier::Metadata];
     let depths = [AnnotationDepth::One, AnnotationDepth::Max];
-    let strs: [&'static str; 6] = ["x", "my id", "", "\u{e9}t\u{e9}", "semi;colon", "http://ex.org/ns#p"];
+    // plain identifiers, and identifiers that spell something the grammar gives a meaning to: a variable (`?x`), a
+    // qualifier keyword, the NONE of SUBSTORE, the OR of a union
+    let strs: [&'static str; 13] = ["x", "my id", "", "\u{e9}t\u{e9}", "semi;colon", "http://ex.org/ns#p", "?x", "?", "AS", "RECURSIVE", "NONE", "a OR b", "]"];
     let mut v: Vec<Constraint<'static>> = vec![];
     for s in strs {
         v.push(Constraint::Id(s));
@@ -379,6 +381,8 @@ fn label_of(c: &Constraint) -> String {
     if d.contains("a|b") { return "string-with-pipe".into(); }
     if d.contains("say \\\"hi") || d.contains("back\\\\") { return "string-with-quote-or-backslash".into(); }
     if d == "SubStore(Some(\"\"))" { return "empty-substore-id".into(); }
+    if d.contains("\"?") { return "identifier-that-reads-as-a-variable".into(); }
+    if d.contains("\"AS\"") || d.contains("\"RECURSIVE\"") || d.contains("\"NONE\"") { return "identifier-that-reads-as-a-keyword".into(); }
     let fl = if d.contains("e16") || d.contains("e-7") || d.contains("1e") { "/exponent" } else { "" };
     format!("{}{}{}{}{}", head, if detail.is_empty() { "" } else { "/" }, detail, if inner.is_empty() { String::new() } else { format!("-{}", inner) }, fl)
 }
